@@ -13,15 +13,16 @@ P = {
     "id": "C13",
     "coq_targets": ["Properties/C13.vo", "Run/Eval_C13.vo"],
     "theorems_module": "Properties.C13",
-    "theorems": ["C13_three_entry_points_agree_repo", "C13_repo_guards", "C13_repo_guards_fire", "C13_slash_check_agrees_repo",
+    "theorems": ["C13_three_entry_points_agree_repo", "C13_slash_check_agrees_repo",
                  "C13_same_lookup", "C13_same_view", "C13_same_decision", "C13_same_upstream_headers",
-                 "C13_three_entry_points_agree", "C13_decision_proxy_same_execution",
+                 "C13_three_entry_points_agree",
                  "C13_header_lookup_agrees", "C13_header_accessors_agree_repo", "C13_header_accessors_agree",
-                 "C13_cookie_readers_agree",
+                 "C13_headers_agree_except_host", "C13_headers_host_key",
+                 "C13_cookie_readers_agree", "C13_plain_line_plain_for",
                  "C13_F1_pinned_refuted", "C13_F1_pinned_refuted_decision", "C13_F2_pinned_refuted", "C13_F3_pinned_refuted",
                  "C13_F4_pinned_refuted", "C13_F4_pinned_refuted_view", "C13_F6_pinned_refuted", "C13_F7_pinned_refuted",
-                 "C13_F3b_refuted", "C13_F5_refuted", "C13_F5_refuted_handover", "C13_F8_refuted",
-                 "C13_nonvacuous", "C13_nonvacuous_pinned"],
+                 "C13_F3b_refuted", "C13_F5_refuted", "C13_F5_refuted_handover", "C13_F8_refuted", "C13_F9_refuted",
+                 "C13_nonvacuous", "C13_nonvacuous_pinned", "C13_nonvacuous_redirect"],
     "streams": [{
         "name": "entrypoints", "pkg": "./internal/zzverif/c13", "test": "TestVerifC13",
         "overlay": dict(ASSEMBLY_OVERLAY, **{"internal/zzverif/c13/c13_test.go": "c13/c13_test.go"}),
